@@ -10,7 +10,12 @@
  * control counts.  Hygiene: static pool allocator (glibc malloc would build an arena on the scanned stack),
  * link with -Wl,-z,now (the lazy PLT resolver spills vector registers), inputs live in static memory.
  *
- * Build: cc $OPT -DNDEBUG -DPOLYSEED_STATIC -I/repo/include -iquote /repo/src stackscan.c /repo/src/<all>.c -Wl,-z,now
+ * Language = argv[1] (registry index).  Normalisation is real (utf8proc) but must not itself leave phrase bytes
+ * on the scanned stack: a warm-up pass runs every case once on the main stack with utf8proc-backed normalisers that
+ * RECORD (input -> output); the scanned passes use table-driven normalisers that only strcmp/memcpy from static memory.
+ * Phrase and password are scanned in the form given AND in NFKD form (what the library's temporaries hold).
+ *
+ * Build: cc $OPT -DNDEBUG -DPOLYSEED_STATIC -I/repo/include -iquote /repo/src stackscan.c /repo/src/<all>.c -Wl,-z,now -lutf8proc
  */
 #define _GNU_SOURCE
 #include "polyseed.h"
@@ -26,6 +31,7 @@
 #include <stdbool.h>
 #include <ucontext.h>
 #include <sys/mman.h>
+#include <utf8proc.h>
 
 #define STACK_SIZE (512 * 1024)
 #define PATTERN 0xA5
@@ -52,6 +58,35 @@ static void dep_memzero(void* const p, const size_t n) { volatile unsigned char*
 static size_t dep_copy(const char* s, polyseed_str o) { size_t n = strlen(s); if (n > POLYSEED_STR_SIZE - 1) n = POLYSEED_STR_SIZE - 1; memcpy(o, s, n); o[n] = 0; return n; }
 static uint64_t dep_time(void) { return 1700000000ull; }
 
+/* recorded normalisations: kind 0 = NFC, 1 = NFKD */
+#define NTAB 64
+static struct { int kind; char in[POLYSEED_STR_SIZE * 2]; char out[POLYSEED_STR_SIZE]; size_t n; } g_tab[NTAB];
+static int g_ntab, g_untabled;
+static size_t real_norm(int kind, const char* s, polyseed_str o) {
+    utf8proc_uint8_t* r = kind == 0 ? utf8proc_NFC((const utf8proc_uint8_t*)s) : utf8proc_NFKD((const utf8proc_uint8_t*)s);
+    const char* src = r ? (const char*)r : s;
+    size_t n = strlen(src);
+    if (n > POLYSEED_STR_SIZE - 1) n = POLYSEED_STR_SIZE - 1;
+    memcpy(o, src, n); o[n] = 0;
+    if (r) free(r);
+    if (g_ntab < NTAB && strlen(s) < sizeof g_tab[0].in) {
+        int known = 0;
+        for (int i = 0; i < g_ntab; ++i) if (g_tab[i].kind == kind && strcmp(g_tab[i].in, s) == 0) known = 1;
+        if (!known) { g_tab[g_ntab].kind = kind; strcpy(g_tab[g_ntab].in, s); memcpy(g_tab[g_ntab].out, o, n + 1); g_tab[g_ntab].n = n; g_ntab++; }
+    }
+    return n;
+}
+static size_t real_nfc(const char* s, polyseed_str o) { return real_norm(0, s, o); }
+static size_t real_nfkd(const char* s, polyseed_str o) { return real_norm(1, s, o); }
+static size_t tab_norm(int kind, const char* s, polyseed_str o) {
+    for (int i = 0; i < g_ntab; ++i)
+        if (g_tab[i].kind == kind && strcmp(g_tab[i].in, s) == 0) { memcpy(o, g_tab[i].out, g_tab[i].n + 1); return g_tab[i].n; }
+    g_untabled++;
+    return dep_copy(s, o);
+}
+static size_t tab_nfc(const char* s, polyseed_str o) { return tab_norm(0, s, o); }
+static size_t tab_nfkd(const char* s, polyseed_str o) { return tab_norm(1, s, o); }
+
 /* ---- inputs and outputs live here, never on the scanned stack ---- */
 static unsigned char g_secret[19];
 static unsigned g_idx[16];
@@ -59,7 +94,13 @@ static char g_phrase[POLYSEED_STR_SIZE];
 static char g_phrase_badcoin[POLYSEED_STR_SIZE];
 static char g_phrase_unsup[POLYSEED_STR_SIZE];
 static unsigned g_idx_unsup[16];
-static char g_password[64] = "correct horse battery staple!";
+static char g_phrase_mult[POLYSEED_STR_SIZE];
+static unsigned g_idx_mult[16];
+static int g_have_mult;
+static char g_password[64] = "p\xc3\xa4ssw\xc3\xb6rd correct h\xc3\xb4rse battery";
+static char g_password_nfkd[POLYSEED_STR_SIZE];
+static char g_phrase_nfkd[POLYSEED_STR_SIZE];
+static char g_phrase_unsup_nfkd[POLYSEED_STR_SIZE];
 static polyseed_storage g_store, g_store_unsup, g_store_badchk, g_store_badfmt;
 static polyseed_data* g_seed;
 static polyseed_data* g_out;
@@ -71,10 +112,10 @@ static int g_skip;      /* control run: do everything but the API call */
 static int g_case;
 static polyseed_status g_status;
 
-enum { C_CREATE, C_ENCODE, C_DECODE_OK, C_DECODE_CHK, C_DECODE_LANG, C_DECODE_NUM, C_DECODE_UNSUP,
+enum { C_CREATE, C_ENCODE, C_DECODE_OK, C_DECODE_CHK, C_DECODE_LANG, C_DECODE_NUM, C_DECODE_UNSUP, C_DECODE_MULT,
        C_DECODEX_OK, C_DECODEX_CHK, C_DECODEX_LANG, C_DECODEX_UNSUP,
        C_LOAD_OK, C_LOAD_FMT, C_LOAD_CHK, C_LOAD_UNSUP, C_CRYPT, C_KEYGEN, C_STORE, C_FREE, C_NCASES };
-static const char* g_names[] = { "create", "encode", "decode/ok", "decode/checksum", "decode/lang", "decode/numwords", "decode/unsupported",
+static const char* g_names[] = { "create", "encode", "decode/ok", "decode/checksum", "decode/lang", "decode/numwords", "decode/unsupported", "decode/multlang",
     "decode_explicit/ok", "decode_explicit/checksum", "decode_explicit/lang", "decode_explicit/unsupported",
     "load/ok", "load/format", "load/checksum", "load/unsupported", "crypt", "keygen", "store", "free" };
 
@@ -89,6 +130,7 @@ static void the_call(void) {
     case C_DECODE_LANG: g_status = polyseed_decode(g_phrase_badcoin, POLYSEED_MONERO, &g_langout, &g_out); break;
     case C_DECODE_NUM: g_status = polyseed_decode("abandon ability able", POLYSEED_MONERO, &g_langout, &g_out); break;
     case C_DECODE_UNSUP: g_status = polyseed_decode(g_phrase_unsup, POLYSEED_MONERO, &g_langout, &g_out); break;
+    case C_DECODE_MULT: if (g_have_mult) g_status = polyseed_decode(g_phrase_mult, POLYSEED_MONERO, &g_langout, &g_out); else g_status = -1; break;
     case C_DECODEX_OK: g_status = polyseed_decode_explicit(g_phrase, POLYSEED_MONERO, g_lang, &g_out); break;
     case C_DECODEX_CHK: g_status = polyseed_decode_explicit(g_phrase, POLYSEED_AEON, g_lang, &g_out); break;
     case C_DECODEX_LANG: g_status = polyseed_decode_explicit(g_phrase_badcoin, POLYSEED_MONERO, g_lang, &g_out); break;
@@ -161,16 +203,47 @@ static void report(const char* what, int hits, int ctl, long first) {
     printf("SCAN case=%s kind=%s hits=%d control=%d first=%ld\n", g_names[g_case], what, hits, ctl, first);
 }
 
+/* a phrase all of whose 16 tokens are recognised by two lists (the MULT_LANG exit): words of language a that language b
+ * finds too; the indices the decoder holds are those of the FIRST list in registry order that recognises all of them */
+static void build_mult(int li) {
+    int nl = polyseed_get_num_langs();
+    for (int pass = 0; pass < 2 && !g_have_mult; ++pass)
+    for (int a = 0; a < nl && !g_have_mult; ++a) {
+        if (pass == 0 && a != li) continue;
+        for (int b = 0; b < nl && !g_have_mult; ++b) {
+            if (b == a) continue;
+            const polyseed_lang* La = polyseed_get_lang(a);
+            const polyseed_lang* Lb = polyseed_get_lang(b);
+            const char* tok[16]; int n = 0;
+            size_t len = 0;
+            for (int i = 0; i < POLYSEED_LANG_SIZE && n < 16; i += 7) {
+                const char* w = La->words[i];
+                if (polyseed_lang_find_word(Lb, w) >= 0 && len + strlen(w) + 1 < POLYSEED_STR_SIZE - 1) { tok[n++] = w; len += strlen(w) + 1; }
+            }
+            if (n < 16) continue;
+            g_phrase_mult[0] = 0;
+            for (int i = 0; i < 16; ++i) { if (i) strcat(g_phrase_mult, " "); strcat(g_phrase_mult, tok[i]); }
+            for (int l = 0; l < nl; ++l) {
+                int all = 1;
+                for (int i = 0; i < 16; ++i) { int x = polyseed_lang_find_word(polyseed_get_lang(l), tok[i]); if (x < 0) { all = 0; break; } g_idx_mult[i] = (unsigned)x; }
+                if (all) { g_have_mult = 1; break; }
+            }
+        }
+    }
+}
+
 static void setup_seed(void) {
     if (g_seed) { polyseed_free(g_seed); g_seed = NULL; }
     polyseed_load(g_store, &g_seed);
 }
 
-int main(void) {
+int main(int argc, char** argv) {
     g_stack = mmap(NULL, STACK_SIZE, PROT_READ | PROT_WRITE, MAP_PRIVATE | MAP_ANONYMOUS, -1, 0);
-    polyseed_dependency deps = { dep_rand, dep_kdf, dep_memzero, dep_copy, dep_copy, dep_time, pool_alloc, pool_free };
+    polyseed_dependency deps = { dep_rand, dep_kdf, dep_memzero, real_nfc, real_nfkd, dep_time, pool_alloc, pool_free };
     polyseed_inject(&deps);
-    g_lang = polyseed_get_lang(0);
+    int li = argc > 1 ? atoi(argv[1]) : 0;
+    if (li < 0 || li >= polyseed_get_num_langs()) li = 0;
+    g_lang = polyseed_get_lang(li);
     for (int i = 0; i < 19; ++i) g_secret[i] = g_rand[i] = (unsigned char)(0x31 + 7 * i);
     g_secret[18] &= 0x3F;
     for (int i = 0; i < 32; ++i) g_mask[i] = (unsigned char)(0xC1 + 5 * i);
@@ -200,9 +273,26 @@ int main(void) {
     polyseed_enable_features(0);
     memcpy(g_store_badchk, g_store, sizeof g_store); g_store_badchk[30] ^= 1;
     memcpy(g_store_badfmt, g_store, sizeof g_store); g_store_badfmt[0] ^= 1;
-    /* a phrase with one unknown word (language error) */
-    strcpy(g_phrase_badcoin, g_phrase);
-    { char* sp = strchr(g_phrase_badcoin, ' '); if (sp && sp[1]) { sp[1] = 'q'; sp[2] = 'q'; } }
+    /* a phrase whose first word is unknown (language error) */
+    {
+        polyseed_str sepn; real_nfc(g_lang->separator, sepn);
+        const char* sp = strstr(g_phrase, sepn);
+        strcpy(g_phrase_badcoin, "qqqqq");
+        if (sp) strcat(g_phrase_badcoin, sp);
+    }
+    build_mult(li);
+    real_nfkd(g_phrase, g_phrase_nfkd);
+    real_nfkd(g_phrase_unsup, g_phrase_unsup_nfkd);
+    real_nfkd(g_password, g_password_nfkd);
+    /* warm-up pass on the main stack: records every normalisation the cases ask for */
+    for (g_case = 0; g_case < C_NCASES; ++g_case) {
+        g_skip = 0;
+        setup_seed();
+        the_call();
+        if (g_out) { polyseed_free(g_out); g_out = NULL; }
+    }
+    deps.u8_nfc = tab_nfc; deps.u8_nfkd = tab_nfkd;
+    polyseed_inject(&deps);
 
     for (g_case = 0; g_case < C_NCASES; ++g_case) {
         int res[8]; long first[8]; int ctl[8];
@@ -211,8 +301,9 @@ int main(void) {
             if (g_case == C_CRYPT || g_case == C_KEYGEN || g_case == C_STORE || g_case == C_ENCODE || g_case == C_FREE) { /* uses g_seed */ }
             run_on_stack();
             if (g_out) { polyseed_free(g_out); g_out = NULL; }
-            const unsigned* idx = (g_case == C_DECODE_UNSUP || g_case == C_DECODEX_UNSUP || g_case == C_LOAD_UNSUP) ? g_idx_unsup : g_idx;
-            const char* ph = (g_case == C_DECODE_UNSUP || g_case == C_DECODEX_UNSUP) ? g_phrase_unsup : g_phrase;
+            const unsigned* idx = (g_case == C_DECODE_UNSUP || g_case == C_DECODEX_UNSUP || g_case == C_LOAD_UNSUP) ? g_idx_unsup : g_case == C_DECODE_MULT ? g_idx_mult : g_idx;
+            const char* ph = (g_case == C_DECODE_UNSUP || g_case == C_DECODEX_UNSUP) ? g_phrase_unsup : g_case == C_DECODE_MULT ? g_phrase_mult : g_phrase;
+            const char* phn = (g_case == C_DECODE_UNSUP || g_case == C_DECODEX_UNSUP) ? g_phrase_unsup_nfkd : g_case == C_DECODE_MULT ? g_phrase_mult : g_phrase_nfkd;
             int k = 0;
             int* out = g_skip ? ctl : res;
             long f = -1;
@@ -220,13 +311,18 @@ int main(void) {
             out[k++] = scan_idx(idx, 8, &f); if (!g_skip) first[1] = f; f = -1;
             out[k++] = scan_idx(idx, 4, &f); if (!g_skip) first[2] = f; f = -1;
             out[k++] = scan_idx(idx, 2, &f); if (!g_skip) first[3] = f; f = -1;
-            out[k++] = scan_bytes((const unsigned char*)ph, strlen(ph), 12, &f); if (!g_skip) first[4] = f; f = -1;
-            out[k++] = scan_bytes((const unsigned char*)g_password, strlen(g_password), 8, &f); if (!g_skip) first[5] = f; f = -1;
+            out[k] = scan_bytes((const unsigned char*)ph, strlen(ph), 12, &f);
+            if (strcmp(ph, phn) != 0) out[k] += scan_bytes((const unsigned char*)phn, strlen(phn), 12, &f);
+            k++; if (!g_skip) first[4] = f; f = -1;
+            out[k] = scan_bytes((const unsigned char*)g_password, strlen(g_password), 8, &f);
+            out[k] += scan_bytes((const unsigned char*)g_password_nfkd, strlen(g_password_nfkd), 8, &f);
+            k++; if (!g_skip) first[5] = f; f = -1;
             out[k++] = scan_bytes(g_mask, 32, 8, &f); if (!g_skip) first[6] = f;
         }
         static const char* kinds[] = { "secret", "indices64", "indices32", "indices16", "phrase", "password", "mask" };
         for (int k = 0; k < 7; ++k) report(kinds[k], res[k], ctl[k], first[k]);
         printf("STATUS case=%s st=%d\n", g_names[g_case], (int)g_status);
     }
+    printf("NORMALISATIONS recorded=%d untabled=%d lang=%d\n", g_ntab, g_untabled, li);
     return 0;
 }
